@@ -23,6 +23,9 @@ class ConstDomain(Domain):
     def attr(self, interp, val, name, node):
         if name in self.attr_values:
             return Const(self.attr_values[name])
+        if isinstance(val, Const) and isinstance(val.value, str) and name in ("translate", "lower", "upper", "strip", "startswith", "endswith", "join"):
+            from ..absint import ExtRef
+            return ExtRef("value." + name, recv=val)
         return NotImplemented
 
     def call_external(self, interp, name, recv, args, kwargs, node):
@@ -31,7 +34,41 @@ class ConstDomain(Domain):
             return Const(getattr(recv.value, last)())
         if last in ("startswith", "endswith") and isinstance(recv, Const) and isinstance(recv.value, str) and args and isinstance(args[0], Const):
             return Const(getattr(recv.value, last)(args[0].value))
+        # translation tables on constant strings (constant folding with the analyser's own str type; nothing of the analysed program is executed)
+        if last == "maketrans" and args:
+            from ..absint import DictV
+            if all(isinstance(a, Const) and isinstance(a.value, str) for a in args) and len(args) in (2, 3):
+                try:
+                    return Const(str.maketrans(*[a.value for a in args]))
+                except Exception:
+                    return TOP
+            if len(args) == 1 and isinstance(args[0], DictV) and all(isinstance(v, Const) for v in args[0].items.values()):
+                try:
+                    return Const(str.maketrans({k: v.value for k, v in args[0].items.items() if not str(k).startswith("$")}))
+                except Exception:
+                    return TOP
+        if last == "translate" and isinstance(recv, Const) and isinstance(recv.value, str) and args and isinstance(args[0], Const) and isinstance(args[0].value, dict):
+            return Const(recv.value.translate(args[0].value))
+        if last == "join" and isinstance(recv, Const) and isinstance(recv.value, str) and args:
+            ok, v = self._py(args[0])
+            if ok and all(isinstance(x, str) for x in v):
+                return Const(recv.value.join(v))
         return TOP
+
+    def subscript(self, interp, val, index_node, index_val, node):
+        if isinstance(val, Const) and isinstance(val.value, (str, tuple)):
+            if isinstance(index_node, ast.Slice):
+                try:
+                    parts = [None if p_ is None else ast.literal_eval(p_) for p_ in (index_node.lower, index_node.upper, index_node.step)]
+                    return Const(val.value[slice(*parts)])
+                except Exception:
+                    return TOP
+            if isinstance(index_val, Const) and isinstance(index_val.value, int):
+                try:
+                    return Const(val.value[index_val.value])
+                except Exception:
+                    return TOP
+        return NotImplemented
 
     @staticmethod
     def _py(v):
